@@ -146,6 +146,26 @@ def step (st : St) (line : String) : St × List String :=
         match st.c with
         | none => (st, ["bad-op"])
         | some c => (st, prepLines c)
+      | "sess", toks =>
+        -- tokens: (1 n v1..vn | 0 n v1..vn)*   (1 = set_public_inputs, 0 = set_private_inputs)
+        match st.c with
+        | none => (st, ["bad-op"])
+        | some c =>
+          let rec parse (fuel : Nat) (ts : List Nat) (acc : List (Bool × List (PF st.p))) :
+              Option (List (Bool × List (PF st.p))) :=
+            match fuel, ts with
+            | _, [] => some acc.reverse
+            | 0, _ => none
+            | fuel + 1, kind :: n :: rest =>
+              if rest.length < n then none
+              else parse fuel (rest.drop n) ((kind == 1, (rest.take n).map (PF.ofNat (p := st.p))) :: acc)
+            | _, _ => none
+          match parse (toks.length + 1) toks [] with
+          | none => (st, ["bad-op"])
+          | some calls =>
+            match session canonPF c calls with
+            | .ok t => (st, [s!"run ok {" ".intercalate (t.witness.toList.map toString)}"])
+            | .error e => (st, [s!"run err {errStr e}"])
       | "run", np :: rest =>
         match st.c with
         | none => (st, ["bad-op"])
